@@ -122,6 +122,25 @@ def run(chk, prog):
     # ---------------------------------------------------------------- the tables
     C19.run(chk, prog)          # Mask.flatten / __or__ / __xor__ + FlagOp tables
     C20.choose_wrap(chk, prog)  # tree_choose int shortcut vs mode="wrap"
+    # multi_switch: the placeholder structure of every branch comes from ABSTRACT evaluation (to_shape_fn / eval_shape), while the branch functions handed to
+    # lax.switch run on whatever they captured.  If they capture the caller's arguments from the enclosing scope, a concrete Python bool / int among those
+    # arguments takes the callee's concreteness shortcuts (Mask.flatten, FlagOp) inside the branch but not in the placeholder: eagerly the pytrees differ
+    # (TypeError from lax.switch), under jit they agree.  The arguments must reach the branches as operands (abstract on both sides).
+    import ast as _ast
+    ms_mod, ms_fn = prog.func("multi_switch", "core/compiler/staging.py")
+    captured = []
+    for inner in [n for n in _ast.walk(ms_fn) if isinstance(n, _ast.FunctionDef) and n is not ms_fn]:
+        for sub in [n for n in _ast.walk(inner) if isinstance(n, _ast.FunctionDef) and n is not inner]:
+            params = {a.arg for a in sub.args.args} | ({sub.args.vararg.arg} if sub.args.vararg else set())
+            outer = {a.arg for a in inner.args.args}
+            for c_ in [n for n in _ast.walk(sub) if isinstance(n, _ast.Call)]:
+                for a_ in c_.args:
+                    nm = a_.value if isinstance(a_, _ast.Starred) else a_
+                    if isinstance(nm, _ast.Name) and nm.id in outer and nm.id not in params:
+                        captured.append(f"{sub.name}: {_ast.unparse(c_)[:40]} captures `{nm.id}` of {inner.name}")
+    uses_abstract = any(isinstance(n, _ast.Call) and _ast.unparse(n.func).split(".")[-1] in ("to_shape_fn", "eval_shape") for n in _ast.walk(ms_fn))
+    chk.require(not (captured and uses_abstract), "MSWITCH-OPERANDS", "multi_switch/branch-arguments", "branch arguments captured by closure",
+                derived=f"placeholders from abstract evaluation, but {captured[:2]}", expected="the argument tuples are passed to lax.switch as operands, so placeholders and branches see the same (abstract) values", where=f"{ms_mod.rel}:{ms_fn.lineno}")
     obs = Obs()
     distribution.analyse(obs, prog)
     switch.analyse(obs, prog)
